@@ -52,6 +52,28 @@ class C11(Prop):
     def __init__(self):
         self.translators = [_table, _codes]
 
+    def extra(self, ctx):
+        """thorough only (about two and a half minutes in a debug build): one function with more decision points than a 16-bit
+        counter holds - high_cyclomatic_complexity must not panic on it (finding D4, repaired)"""
+        if ctx["tier"] != "thorough":
+            return []
+        wd = os.path.join(core.CACHE, "work", "C11-counter")
+        shutil.rmtree(wd, ignore_errors=True)
+        os.makedirs(wd, exist_ok=True)
+        open(os.path.join(wd, "selene.toml"), "w").write('std = "lua51"\n[lints]\nhigh_cyclomatic_complexity = "warn"\nempty_if = "allow"\n')
+        open(os.path.join(wd, "big.lua"), "w").write("local function f(x)\n" + "if x then end\n" * 66000 + "end\nreturn f\n")
+        rc, out, err = cli.run_selene(wd, ["--display-style", "quiet", "--num-threads", "1", "big.lua"], timeout=1500)
+        ctx["cov"]["counter_probe"] = {"decision_points": 66000, "exit": rc, "reported": "high_cyclomatic_complexity" in out}
+        res = []
+        if "panicked" in err or rc not in (0, 1) or "high_cyclomatic_complexity" not in out:
+            rp = os.path.join(core.VERIF, "replays", "C11-counter-seed%d.json" % ctx["seed"])
+            core.write_json(rp, {"property": "C11", "kind": "complexity-counter", "source": "local function f(x) / `if x then end` x 66000 / end / return f",
+                                 "config": "high_cyclomatic_complexity = warn", "exit": rc, "stdout": out[-600:], "stderr": err[:1200]})
+            res.append({"kind": "spec", "replay": rp, "found_input": True,
+                        "text": "a function with 66000 decision points: the lint run panicked or lost its report (exit %d)" % rc})
+        shutil.rmtree(wd, ignore_errors=True)
+        return res
+
     def generate(self, wd, seed, n, tier, only):
         probes = [1, 2, 4, 8, 11, 60, 400, 2000] if tier == "quick" else [1, 2, 3, 4, 5, 8, 9, 11, 20, 60, 150, 400, 1000, 2000, 5000]
         nh = n - 2 * len(probes)
